@@ -179,101 +179,121 @@ def c13_c(ctx):
         raise AnchorMissing('no sampling loop in GMDistribution.rvs')
     lo = loops[0]
     hdr = cfg_of(rv).by_stmt[id(lo)]
-    # loop condition: accepted < size
+    # roles (never local names): ACC from the loop test, OUT / X from the store into the
+    # buffer at [ACC : ACC + k], LEFT from the size of the component draw
     tt = ex.raw(lo.test)
-    ok = match(tt, pattern('n_accepted < size')) is not None
+    m = match(tt, pattern('_a < size'))
+    ok = m is not None and m['a'][0] == 'name'
     ctx.check(ok, rv, 'loop until enough points', 'while n_accepted < size',
               'the loop condition is {}'.format(src(lo.test)), fn=rv, node=lo)
+    if not ok:
+        return
+    ACC = m['a'][1]
+    outs = []
+    for s_ in ast.walk(lo):
+        if isinstance(s_, ast.Assign) and isinstance(s_.targets[0], ast.Subscript) and \
+                isinstance(s_.targets[0].value, ast.Name) and \
+                isinstance(s_.targets[0].slice, ast.Slice) and \
+                ex.raw(s_.targets[0].slice.lower) == ('name', ACC):
+            outs.append(s_)
+    if len(outs) != 1 or not isinstance(outs[0].value, ast.Name):
+        ctx.bad(rv, 'kept points stored after the accepted ones',
+                'no store of the kept points at [n_accepted : ...]', fn=rv, node=lo)
+        return
+    OUT, X = outs[0].targets[0].value.id, outs[0].value.id
+    ch = [c for c in ast.walk(lo) if isinstance(c, ast.Call) and callee_name(c) == 'choice']
+    LEFT = None
+    if ch:
+        ck = dict((kw.arg, ex.raw(kw.value)) for kw in ch[0].keywords)
+        if ck.get('size', ('x',))[0] == 'name':
+            LEFT = ck['size'][1]
     # filter
-    flt = [s for s in ast.walk(lo) if isinstance(s, ast.Assign) and
-           match(ex.raw(s.value), pattern('_x[np.isfinite(prior_logpdf(_x))]')) is not None]
+    flt = [s_ for s_ in ast.walk(lo) if isinstance(s_, ast.Assign) and
+           isinstance(s_.targets[0], ast.Name) and s_.targets[0].id == X and
+           match(ex.raw(s_.value), pattern('{x}[np.isfinite(prior_logpdf({x}))]'.format(x=X)))
+           is not None]
     ok = bool(flt) and all(any(pol and match(t, pattern('prior_logpdf is not None')) is not None
-                               for (t, pol, _) in ctx.guards(rv, s)) for s in flt)
-    bad = [s for s in ast.walk(lo) if isinstance(s, ast.Assign) and
-           contains(ex.raw(s.value), 'prior_logpdf(_)') and s not in flt]
+                               for (t, pol, _) in ctx.guards(rv, s_)) for s_ in flt)
+    bad = [s_ for s_ in ast.walk(lo) if isinstance(s_, ast.Assign) and
+           contains(ex.raw(s_.value), 'prior_logpdf(_)') and s_ not in flt]
     ctx.check(ok and not bad, rv, 'support filter',
               'x = x[np.isfinite(prior_logpdf(x))] when a prior is given',
               'candidates are not filtered by the un-negated isfinite(prior_logpdf(x)) mask'
               + (' (found `{}`)'.format(src(bad[0])) if bad else ''), fn=rv,
               node=(flt or bad or [lo])[0])
-    # output slice and counters
-    outs = [s for s in ast.walk(lo) if isinstance(s, ast.Assign) and
-            isinstance(s.targets[0], ast.Subscript) and
-            match(ex.raw(s.targets[0]), pattern('output[_]')) is not None]
-    ok = False
-    k = None
-    for s in outs:
-        tg = ex.raw(s.targets[0])
-        m = match(tg[2], pattern('slice(n_accepted, n_accepted + _k)')) if False else None
-        sl = tg[2]
-        if sl[0] == 'slice' and sl[1] == ('name', 'n_accepted') and sl[2][0] == 'binop' and \
-                sl[2][1] == '+' and sl[2][2] == ('name', 'n_accepted'):
-            k = sl[2][3]
-            v = ex.term(s.value)
-            kt = ex.term(s.targets[0].slice.upper.right)
-            if match(kt, pattern('len(_v)')) is not None and match(kt, pattern('len(_v)'))['v'] == v:
-                ok = True
-        if flt and not ctx.must_precede(rv, flt, s) and \
-                not all(cfg_of(rv).exists_path(ctx.node(rv, f2), ctx.node(rv, s)) for f2 in flt):
-            ok = False
+    # output slice: [ACC : ACC + len(X)]
+    s0 = outs[0]
+    up = ex.raw(s0.targets[0].slice.upper) if s0.targets[0].slice.upper is not None else None
+    ok = up is not None and up[0] == 'binop' and up[1] == '+' and up[2] == ('name', ACC)
+    k = up[3] if ok else None
+    if ok:
+        kt = ex.term(s0.targets[0].slice.upper.right)
+        ok = match(kt, pattern('len(_v)')) is not None and \
+            match(kt, pattern('len(_v)'))['v'] == ex.term(s0.value)
+    if ok and flt:
+        ok = all(cfg_of(rv).exists_path(ctx.node(rv, f2), ctx.node(rv, s0), avoiding=[hdr])
+                 for f2 in flt)
     ctx.check(ok, rv, 'kept points stored after the accepted ones',
-              'output[n_accepted : n_accepted + len(x)] = x',
+              'output[n_accepted : n_accepted + len(x)] = x (after the filter)',
               'the kept points are not written to output[n_accepted : n_accepted + len(x)]',
-              fn=rv, node=outs[0] if outs else lo)
-    incs = [s for s in ast.walk(lo) if isinstance(s, ast.AugAssign) and
-            isinstance(s.target, ast.Name) and s.target.id in ('n_accepted', 'n_left')]
+              fn=rv, node=s0)
+    incs = [s_ for s_ in ast.walk(lo) if isinstance(s_, ast.AugAssign) and
+            isinstance(s_.target, ast.Name) and s_.target.id in (ACC, LEFT)]
     by = {}
-    for s in incs:
-        by[s.target.id] = (type(s.op).__name__, ex.raw(s.value), s)
-    ok = set(by) == {'n_accepted', 'n_left'} and by['n_accepted'][0] == 'Add' and \
-        by['n_left'][0] == 'Sub' and by['n_accepted'][1] == by['n_left'][1] and \
-        (k is None or by['n_accepted'][1] == k)
+    for s_ in incs:
+        by[s_.target.id] = (type(s_.op).__name__, ex.raw(s_.value), s_)
+    ok = LEFT is not None and set(by) == {ACC, LEFT} and by[ACC][0] == 'Add' and \
+        by[LEFT][0] == 'Sub' and by[ACC][1] == by[LEFT][1] and (k is None or by[ACC][1] == k)
     ctx.check(ok, rv, 'counters move in lock-step',
               'n_accepted += k and n_left -= k with the number of kept points',
               'n_accepted and n_left are not advanced / reduced by the same number of kept '
               'points', fn=rv, node=incs[0] if incs else lo)
-    if outs and incs and 'n_accepted' in by:
-        ok = ctx.must_precede(rv, [outs[0]], by['n_accepted'][2])
+    if ACC in by:
+        ok = ctx.must_precede(rv, [s0], by[ACC][2])
         ctx.check(ok, rv, 'store before advancing', 'output written before n_accepted moves',
-                  'n_accepted is advanced before the points are stored', fn=rv, node=outs[0])
-    # initial values
+                  'n_accepted is advanced before the points are stored', fn=rv, node=s0)
     init = {}
-    for s in own_nodes(rv.node):
-        if isinstance(s, ast.Assign) and isinstance(s.targets[0], ast.Name) and \
-                s.targets[0].id in ('n_accepted', 'n_left') and not _inside(s, lo):
-            init[s.targets[0].id] = ex.raw(s.value)
-    ok = init.get('n_accepted') == ('const', 0) and init.get('n_left') == ('name', 'size')
+    for s_ in own_nodes(rv.node):
+        if isinstance(s_, ast.Assign) and isinstance(s_.targets[0], ast.Name) and \
+                s_.targets[0].id in (ACC, LEFT) and not _inside(s_, lo):
+            init[s_.targets[0].id] = ex.raw(s_.value)
+    ok = init.get(ACC) == ('const', 0) and init.get(LEFT) == ('name', 'size')
     ctx.check(ok, rv, 'counters start at (0, size)', 'n_accepted = 0, n_left = size',
               'counters start at {}'.format({k2: show(v) for k2, v in init.items()}), fn=rv,
               node=lo)
-    # draws: n_left candidates, one generator
-    ch = [c for c in ast.walk(lo) if isinstance(c, ast.Call) and callee_name(c) == 'choice']
     pr = [c for c in ast.walk(lo) if isinstance(c, ast.Call) and
           match(ex.raw(c), pattern('ss.multivariate_normal.rvs(*_)')) is not None]
-    ok = bool(ch) and bool(pr)
+    ok = bool(ch) and bool(pr) and LEFT is not None
     if ok:
         ck = dict((kw.arg, ex.raw(kw.value)) for kw in ch[0].keywords)
         pk = dict((kw.arg, ex.raw(kw.value)) for kw in pr[0].keywords)
-        ok = ck.get('size') == ('name', 'n_left') and pk.get('size') == ('name', 'n_left') and \
-            ck.get('p') == ('name', 'weights') and pk.get('cov') == ('name', 'cov') and \
-            pk.get('random_state') == ('name', 'random_state') and \
-            isinstance(ch[0].func.value, ast.Name) and ch[0].func.value.id == 'random_state'
-    ctx.check(ok, rv, 'candidates', 'n_left components (p=weights) and perturbations from one '
-              'generator', 'component indices and perturbations are not both n_left draws from '
-              'the same generator with p=weights / cov=cov', fn=rv,
+        gen = ch[0].func.value.id if isinstance(ch[0].func.value, ast.Name) else None
+        ok = ck.get('size') == ('name', LEFT) and pk.get('size') == ('name', LEFT) and \
+            ex.term(ch[0].keywords[[kw.arg for kw in ch[0].keywords].index('p')].value)[0] == 'item' \
+            and pk.get('cov') == ('name', 'cov') and gen is not None and \
+            pk.get('random_state') == ('name', gen) and \
+            match(ex.term(ch[0].func.value), pattern('random_state or np.random')) is not None
+    ctx.check(ok, rv, 'candidates', 'n_left components (p=normalised weights) and perturbations '
+              'from one generator', 'component indices and perturbations are not both n_left '
+              'draws from the same generator with p=weights / cov=cov', fn=rv,
               node=ch[0] if ch else lo)
-    # candidate = component mean + perturbation
-    cand = [s for s in ast.walk(lo) if isinstance(s, ast.Assign) and
-            isinstance(s.targets[0], ast.Name) and s.targets[0].id == 'x' and
-            isinstance(s.value, ast.BinOp)]
+    cand = [s_ for s_ in ast.walk(lo) if isinstance(s_, ast.Assign) and
+            isinstance(s_.targets[0], ast.Name) and s_.targets[0].id == X and
+            isinstance(s_.value, ast.BinOp)]
     ok = bool(cand) and match(ex.term(cand[0].value),
                               pattern('_m[_r.choice(*_)] + ss.multivariate_normal.rvs(*_)')) \
         is not None
     ctx.check(ok, rv, 'candidate = component mean + Gaussian step', 'means[inds] + perturb',
               'candidates are not means[inds] + perturbation', fn=rv,
               node=cand[0] if cand else lo)
-    ob = [s for s in own_nodes(rv.node) if isinstance(s, ast.Assign) and
-          isinstance(s.targets[0], ast.Name) and s.targets[0].id == 'output']
+    ob = [s_ for s_ in own_nodes(rv.node) if isinstance(s_, ast.Assign) and
+          isinstance(s_.targets[0], ast.Name) and s_.targets[0].id == OUT]
     ok = bool(ob) and match(ex.raw(ob[0].value), pattern('np.empty((size,) + _s)')) is not None
     ctx.check(ok, rv, 'output has `size` rows', 'np.empty((size,) + means.shape[1:])',
               'the output buffer does not have `size` rows', fn=rv, node=ob[0] if ob else lo)
+    rr = returns(rv)
+    allowed = [('name', OUT), ('sub', ('name', OUT), ('const', 0))]
+    okr = bool(rr) and all(ex.raw(r.value) in allowed or ex.raw1(r.value) in allowed
+                           for r in rr)
+    ctx.check(okr, rv, 'the filled buffer is returned', 'return output',
+              'rvs does not return the buffer it filled', fn=rv, node=rr[0] if rr else lo)
